@@ -216,6 +216,10 @@ let ref_op (x : obj) (c : cur) (ret : string option) : refres =
        | Some "1" -> { rdim = n; pieces = [ xs; y.gamma ]; claim = Best; within_pre = false }
        | _ -> same xs)
   | "difference_assign" -> let y = arg () in { rdim = n; pieces = diff_pieces xs y.gamma; claim = Best; within_pre = true }
+  | "simplify_using_context_assign" ->
+      (* meet-preserving simplification: result /\ y = x /\ y; in particular the result contains x /\ y *)
+      let y = arg () in
+      if ret = Some "1" then { (same (union_sys xs y.gamma)) with claim = Sound } else raise (Skip "simplify answered false")
   | "concatenate_assign" -> let y = arg () in { (same (concatenate (nat n) xs y.gamma)) with rdim = n + y.dim }
   | "topological_closure_assign" -> same (relax xs)
   | "closure" | "reduction" | "obs_constraints" | "obs_minimized_constraints" | "obs_is_empty" -> same xs
@@ -435,15 +439,16 @@ let ref_query line (x : obj) (c : cur) (ans : string list) =
   | "contains" -> let y = arg () in cmpb (lazy (incl y.gamma xs))
   | "strictly_contains" -> let y = arg () in cmpb (lazy (timed (fun () -> q_strictly_contains (dn [ xs; y.gamma ] n) xs y.gamma) None))
   | "is_disjoint_from" -> let y = arg () in
-      (* does the extracted model of the code (closure of both, then the pairwise test) give the same answer? *)
+      (* does the extracted model of the code (closure of both, then intersect, close, test emptiness) give the same answer? *)
       let model =
         if x.rows = [] || y.rows = [] || x.empty_marked || y.empty_marked then "na" else
         (match x.fam with
          | Bds -> let n = nat (List.length x.rows - 1) in
              (match timed (fun () -> Some (closure qc n (mat_of_rows x.rows), closure qc n (mat_of_rows y.rows))) None with
-              | Some (Some a, Some b) -> b2s (code_is_disjoint qc n a b) | Some _ -> "1" | None -> "u")
+              | Some (Some a, Some b) -> b2s (fixed_is_disjoint qc n a b) | Some _ -> "1" | None -> "u")
          | Oct -> let n = nat (List.length x.rows / 2) in
-             ob2s (timed (fun () -> Some (oct_is_disjoint_op qc n (mat_of_rows x.rows) (mat_of_rows y.rows))) None)
+             (match timed (fun () -> Some (strong_closure qc n (mat_of_rows x.rows), strong_closure qc n (mat_of_rows y.rows))) None with
+              | Some (Some a, Some b) -> b2s (oct_fixed_is_disjoint qc n a b) | Some _ -> "1" | None -> "u")
          | _ -> "na") in
       tags := !tags ^ " model_answer=" ^ model;
       cmpb (lazy (timed (fun () -> q_is_disjoint (dn [ xs; y.gamma ] n) xs y.gamma) None))
@@ -626,7 +631,7 @@ let () =
            lazy_tags := (fun () ->
              obj_tags "recv_" pre ^
              (match rest with
-              | a :: _ when List.mem name [ "intersection_assign"; "upper_bound_assign"; "difference_assign"; "concatenate_assign"; "time_elapse_assign"; "upper_bound_assign_if_exact"; "assign" ] ->
+              | a :: _ when List.mem name [ "intersection_assign"; "upper_bound_assign"; "difference_assign"; "concatenate_assign"; "time_elapse_assign"; "upper_bound_assign_if_exact"; "assign"; "simplify_using_context_assign" ] ->
                   (try obj_tags "arg_" (get (int_of_string a)) with _ -> "")
               | _ -> ""));
            bump ("op:" ^ name); bump ("opk:" ^ pre.kind ^ ":" ^ name); bump ("flags:" ^ post.kind ^ ":" ^ post.flags);
@@ -646,6 +651,14 @@ let () =
                    | Some rr ->
                      check_result line ("op:" ^ name) post rr (Some pre.gamma);
                      if name = "closure" then check_closure_model line pre post;
+                     if name = "simplify_using_context_assign" then begin
+                       let y = get (int_of_string (List.hd rest)) in
+                       let meet_pre = union_sys pre.gamma y.gamma and meet_post = union_sys post.gamma y.gamma in
+                       (* the returned flag is not judged (the code also answers false when x contains y);
+                          when it answers true the simplification must be meet-preserving *)
+                       if !prop = "C04" && exact_car post && !ret = Some "1" then
+                         rep "C04:simplify_using_context_assign/meet-preserving" line (of_ob true "result /\\ context differs from receiver /\\ context" (equiv meet_post meet_pre))
+                     end;
                      if name = "upper_bound_assign_if_exact" then begin
                        (match !ret with
                         | Some "1" when post.car = "q" || post.car = "z" ->
